@@ -9,8 +9,8 @@ META = {
     'design_ref': 'DESIGN.md §5 C03',
     'text': 'Kernel-checked: for apk `installed`, gradle.lockfile, Gemfile.lock, dpkg `status` and requirements.txt the byte-level model of the extractor returns exactly the '
             'generated (name, version) list for every record list and every layout (record order, per-line LF/CRLF, final newline or not, any number of blank lines, comments, '
-            'unrelated fields, white space; dpkg: the fields of a stanza in any permutation, case-insensitive field names, continuation lines; requirements.txt: the core grammar name[extras] op version # comment — environment markers, per-requirement options and backslash continuations are covered by the differential stream only); for package-lock.json v1-v3, composer.lock, Cargo.lock, poetry.lock, Pipfile.lock, packages.lock.json and go.mod the record loop over '
-            'the decoded document equals the set comprehension (flattening, de-duplication, aliases, file:/git versions, replace directives, sections). The models are tied to the Go '
+            'unrelated fields, white space; dpkg: the fields of a stanza in any permutation, case-insensitive field names, continuation lines; requirements.txt: the core grammar name[extras] op version # comment — environment markers, per-requirement options and backslash continuations are covered by the differential stream only); for package-lock.json v1-v3, Pipfile.lock, packages.lock.json and go.mod the record loop over '
+            'the DECODED document equals the comprehension (flattening, de-duplication, aliases, file:/git versions, replace directives, sections) — no layout clause is proved for the library-decoded formats, and for composer.lock, Cargo.lock and poetry.lock the loop is append/map so the Lean statements are definitional (not counted): for those seven formats the layout clauses rest on the generator/oracle stream alone. For the line formats the driver rebuilds the generator\'s records and layout as Lean Spec values, checks that Lean `render` gives the very bytes the harness wrote, decides the theorem hypotheses (wf) and takes the oracle\'s expected list from the Spec definition `installed`. The models are tied to the Go '
             'code by running both on generated files (0..40 records x layouts; thorough adds every layout of every <=3-record set) and on a malformed stream; the oracle compares the '
             "IMPLEMENTATION's (name, version) multiset with the generated package set for all twelve formats.",
     'note': 'Trusted: Lean kernel; encoding/json, BurntSushi/toml, x/mod/modfile (the (b) models start at the decoded document; byte layouts of those formats are covered by the differential '
@@ -21,14 +21,15 @@ META = {
 THEOREMS = [
     # (a) byte-level round trips: parse (render layout records) = ok (installed records), all record lists x all layouts
     'Scalibr.Parsers.C03_apk', 'Scalibr.Parsers.C03_gradle', 'Scalibr.Parsers.C03_gemfile', 'Scalibr.Parsers.C03_dpkg',
-    'Scalibr.Parsers.C03_requirements',
+    'Scalibr.Parsers.C03_requirements_partial',   # _partial: WF is the core grammar (no markers / options / continuations / != < > lists)
     # byte-to-line lemmas (bufio.Scanner / bufio.Reader.ReadLine on every LF/CRLF/final-newline layout)
     'Scalibr.Parsers.scan_unlines', 'Scalibr.Parsers.Dpkg.rlines_unlines',
-    # (b) record loop over the decoded document = comprehension, unique keys / no duplicates
-    'Scalibr.Lockfiles.C03_packagelock', 'Scalibr.Lockfiles.C03_packagelock_exact', 'Scalibr.Lockfiles.C03_composer',
-    'Scalibr.Lockfiles.C03_cargo', 'Scalibr.Lockfiles.C03_poetry', 'Scalibr.Lockfiles.C03_pipfile',
+    # (b) record loop over the DECODED document = comprehension, unique keys / no duplicates (no layout clause: decoder trusted)
+    'Scalibr.Lockfiles.C03_packagelock', 'Scalibr.Lockfiles.C03_packagelock_exact', 'Scalibr.Lockfiles.C03_pipfile',
     'Scalibr.Lockfiles.C03_pkgslock', 'Scalibr.Lockfiles.C03_gomod',
 ]
+# restatements of model definitions (append / map over the decoded arrays): NOT proof obligations, no property content of their own
+DEFINITIONAL = ['Scalibr.Lockfiles.C03_composer', 'Scalibr.Lockfiles.C03_cargo', 'Scalibr.Lockfiles.C03_poetry']
 
 def _names(lst):
     out = []
@@ -71,9 +72,12 @@ def run(ctx):
         return len(t) >= 3 and t[2] not in ('?', '-') and t[2].count(',') >= 1
 
     def oracle(case, fi, fm):
-        # the specification = the generated package set; judged against the IMPLEMENTATION's answer
+        # the specification judged against the IMPLEMENTATION's answer. src=lean: spec = `installed records` computed by the Lean Spec from the
+        # generator's abstract records (only where the theorem's hypotheses hold, wf=1); src=gen: the generator's own expected list.
         spec = fm.get('spec', '?')
         if spec == '?' or 'pk' not in fi:
+            return None
+        if fm.get('src') == 'lean' and fm.get('wf') != '1':
             return None
         if fi['pk'] != spec:
             got, want = fi['pk'], spec
@@ -85,21 +89,42 @@ def run(ctx):
             return '%s: reported packages differ from the listed ones: missing %s, extra/duplicated %s' % (case.split(' ')[0], sorted(missing)[:3], sorted(extra)[:3])
         return None
 
+    skew = []          # the Lean specification and the harness disagree about the generated file itself
+    dom = {}           # format -> [cases answered from the Lean Spec with wf=1, with wf=0, cases where spec= is only the generator's echo]
+
     def classify(case, fi, fm):
-        return fi.get('cls', case.split(' ')[0])
+        t = case.split(' ')
+        d = dom.setdefault(t[0], [0, 0, 0])
+        if fm.get('src') == 'lean':
+            d[0 if fm.get('wf') == '1' else 1] += 1
+            want = ','.join(sorted(t[2].split(','))) if t[2] not in ('-', '?') else t[2]
+            if fm.get('same') != '1':
+                skew.append((case, 'Lean `render layout records` is not the byte string the harness wrote'))
+            elif fm.get('wf') == '1' and t[2] != '?' and fm.get('spec') != want:
+                skew.append((case, 'Lean `installed records` (%s) differs from the generator\'s expected list (%s)' % (fm.get('spec', '')[:80], want[:80])))
+        else:
+            d[2] += 1
+        return fi.get('cls', t[0])
 
     lib.standard_stream(ctx, gen='c03gen', driver='drv_c03', gen_args=['-seed', str(ctx.seed), '-n', str(n), '-tier', ctx.tier],
                         compare_keys=['pk'], nontrivial=nontrivial, oracle=oracle, classify=classify, finding_class=finding_class)
     ctx.notes.append('observations outside the well-formed generator (model and implementation agree; not counted as violations): '
                      'a Gemfile.lock line of >= 64 KiB silently ends the file without an error; requirements.txt `foo>1.0` and `foo @ url` lines are dropped; '
                      'go.mod replace directives are chained (a => b, b => c reports c); packages.lock.json `"type": "Project"` references are reported as packages with an empty version')
+    if skew:
+        ctx.mismatches.extend(c for c, _ in skew)
+        ctx.violation('the Lean specification and the harness disagree about generated files (%d case(s)): %s — neither is a statement about /repo; first case below' % (len(skew), skew[0][1]),
+                      [skew[0][0]], found_input=False, name='spec-skew')
+    ctx.extra['spec_domain'] = {f: {'spec_from_lean_wf': v[0], 'spec_from_lean_outside_WF': v[1], 'spec_from_generator_only': v[2]} for f, v in sorted(dom.items())}
+    ctx.extra['definitional_not_obligations'] = DEFINITIONAL
     per = {}
     for k, v in ctx.dist.items():
         f = k.split('/')[0]
         per[f] = per.get(f, 0) + v
     ctx.extra['cases_per_format'] = per
-    ctx.extra['formats_with_byte_level_roundtrip_theorem'] = ['apk', 'gradle', 'gemfile', 'dpkg', 'requirements (core: no markers / per-requirement options / continuations)']
-    ctx.extra['formats_with_record_loop_theorem_on_decoded_document'] = ['package-lock.json v1-v3', 'composer.lock', 'Cargo.lock', 'poetry.lock', 'Pipfile.lock', 'packages.lock.json', 'go.mod']
+    ctx.extra['formats_with_byte_level_roundtrip_theorem'] = ['apk', 'gradle', 'gemfile', 'dpkg', 'requirements (_partial: core grammar, no markers / per-requirement options / continuations)']
+    ctx.extra['formats_with_record_loop_theorem_on_decoded_document'] = ['package-lock.json v1-v3', 'Pipfile.lock', 'packages.lock.json', 'go.mod']
+    ctx.extra['formats_whose_loop_is_definitional'] = ['composer.lock', 'Cargo.lock', 'poetry.lock']
     ctx.extra['differential_only'] = 'byte layouts (indentation, key order, CRLF, unrelated fields) of the seven decoded formats; requirements.txt markers, hashes, continuations'
     if not proofs_ok:
         lib.proof_failed(ctx, 'Scalibr.Properties.C03')
